@@ -183,6 +183,17 @@ def main():
                 RT, ham = ag.get_RelaxationTensor(
                     tab, relaxation_theory="standard_Redfield")
                 hamp = ham
+            # every third system: pure dephasing (Lorentzian, symmetric
+            # rates) given to the superoperator and to the propagator
+            pd_eso, pd_prop = {}, {}
+            if s % 3 == 2:
+                g0 = numpy.random.RandomState(ck.seed + 77 + s).uniform(
+                    0.001, 0.01, size=(ham.dim, ham.dim))
+                gam = (g0 + g0.T) / 2
+                numpy.fill_diagonal(gam, 0.0)
+                pdo = qr.qm.PureDephasing(drates=gam, dtype="Lorentzian")
+                pd_eso, pd_prop = dict(pdeph=pdo), dict(PDeph=pdo)
+            rp["pure_dephasing"] = bool(pd_eso)
             Nt = int(rng.randint(4, 8))
             # steps and numbers of dense sub-steps whose quotient is not
             # exactly representable (0.9 / 7, 4.5 / 14, 1.7 / 13 ...)
@@ -195,7 +206,7 @@ def main():
             dim = ham.dim
             esos = {}
             for dn in (1, 2, 4, 7, 13):
-                e = qr.qm.EvolutionSuperOperator(time, ham=ham, relt=RT)
+                e = qr.qm.EvolutionSuperOperator(time, ham=ham, relt=RT, **pd_eso)
                 e.set_dense_dt(dn)
                 quiet(e.calculate)
                 esos[dn] = numpy.array(e.data)
@@ -230,7 +241,8 @@ def main():
             v /= numpy.linalg.norm(v)
             rho0 = numpy.outer(v, v.conj())
             # (also with 7 dense sub-steps against a propagator refined 7x)
-            p7 = ReducedDensityMatrixPropagator(time, hamp, RTensor=RT)
+            p7 = ReducedDensityMatrixPropagator(time, hamp, RTensor=RT,
+                                                  **pd_prop)
             p7.setDtRefinement(7)
             d7 = numpy.array(quiet(p7.propagate, qr.ReducedDensityMatrix(
                 data=rho0.copy())).data)
@@ -241,10 +253,11 @@ def main():
             if e7 > 1e-10:
                 ck.violation("apply-equals-propagation", kind + ":dense=7",
                              dict(rp, dense=7, err=e7), rp)
-            e2 = qr.qm.EvolutionSuperOperator(time, ham=ham, relt=RT)
+            e2 = qr.qm.EvolutionSuperOperator(time, ham=ham, relt=RT, **pd_eso)
             e2.set_dense_dt(2)
             quiet(e2.calculate)
-            prop = ReducedDensityMatrixPropagator(time, hamp, RTensor=RT)
+            prop = ReducedDensityMatrixPropagator(time, hamp, RTensor=RT,
+                                                  **pd_prop)
             prop.setDtRefinement(2)
             ev = quiet(prop.propagate, qr.ReducedDensityMatrix(
                 data=rho0.copy()))
@@ -272,19 +285,23 @@ def main():
             # calculated inside the eigenbasis of the Hamiltonian (as the
             # library's own examples do) and used outside = calculated
             # outside
+            # (not with pure dephasing: its rates are not basis managed,
+            # they act on the elements of the basis in use)
             ec = qr.qm.EvolutionSuperOperator(time, ham=ham, relt=RT)
             ec.set_dense_dt(2)
-            with qr.eigenbasis_of(ham):
-                quiet(ec.calculate)
-            worst = float(numpy.abs(numpy.array(ec.data) - U).max())
-            ck.case("calculated-in-eigenbasis", s, sample=dict(rp, err=worst))
-            if worst > 1e-9:
+            if not pd_eso:
+                with qr.eigenbasis_of(ham):
+                    quiet(ec.calculate)
+                worst = float(numpy.abs(numpy.array(ec.data) - U).max())
+                ck.case("calculated-in-eigenbasis", s,
+                        sample=dict(rp, err=worst))
+            if not pd_eso and worst > 1e-9:
                 ck.violation("apply-equals-propagation",
                              kind + ":calculated-in-eigenbasis",
                              dict(rp, err=worst), rp)
             # incremental = all at once
             for save in (False, True):
-                ej = qr.qm.EvolutionSuperOperator(time, ham=ham, relt=RT,
+                ej = qr.qm.EvolutionSuperOperator(time, ham=ham, relt=RT, **pd_eso,
                                                   mode="jit")
                 ej.set_dense_dt(2)
                 worst = 0.0
@@ -306,6 +323,8 @@ def main():
                     KdK = K.T.dot(K)
                     Lm = Lm + g * (numpy.kron(K, K) - 0.5 * numpy.kron(KdK, I)
                                    - 0.5 * numpy.kron(I, KdK.T))
+                if pd_eso:
+                    Lm = Lm - numpy.diag(gam.reshape(dim * dim))
                 gg = float(numpy.abs(Lm).sum(axis=0).max())
                 for dn in (1, 2, 4, 7, 13):
                     h = dt / dn
@@ -318,6 +337,10 @@ def main():
                             numpy.abs(P).sum(axis=0).max()))
                     bound = (Nt - 1) * dn * (gg * h) ** 5 / 120.0 * \
                         math.exp(gg * h) * growth
+                    if pd_eso:
+                        # dephasing is applied as a factor after every
+                        # elemental step (first-order splitting)
+                        bound += (Nt - 1) * dn * gg * float(gam.max()) * h * h
                     worst = 0.0
                     for i, t in enumerate(time.data):
                         # (elapsed time since the first grid point)
